@@ -79,6 +79,13 @@ class World:
                             spec = {"kind": "term", "terms": [t for t in spec["terms"] if t["ops"]][:1]}
                         elif r.random() < 0.5:
                             spec["simplify"] = True
+                        if r.random() < 0.12:
+                            # every Z term carries a zero or next-to-zero weight: the operator is NOT constant for that,
+                            # the task is measured and every term gets its value
+                            for t_ in spec["terms"]:
+                                if t_["ops"]:
+                                    t_["c"] = r.choice([0.0, 4e-9, -2e-9, 0.0])
+                            spec.pop("simplify", None)
                     elif kind in ("const", "zero-shot-const"):
                         spec = {"kind": r.choice(["term", "sum"]), "terms": [{"ops": {}, "c": r.choice([2.0, -1.5, 0.0, 7])}]}
                     elif kind == "const-sum":
@@ -315,6 +322,12 @@ class World:
                         ctx.check(float(np.max(np.abs(np.asarray(cov[0])))) <= 1e-12, "weights", "covariances", f"task {i}: covariances {cov[0]} for a basis state")
             after = [(id(t.operator), id(t.circuit), t.number_of_shots, repr(t.operator), repr(t.circuit)) for t in tasks]
             ctx.check(after == snapshot, "mutated-argument", "tasks", "estimation changed its task list")
+        # the results are the client's: it shifts them in place (offsets, unit conversions) - no later answer may notice
+        for ev in res:
+            for arr_ in [getattr(ev, "values", None)] + list(getattr(ev, "correlations", None) or []):
+                if isinstance(arr_, np.ndarray) and arr_.flags.writeable and arr_.dtype.kind in "fc":
+                    arr_ += 7.5
+        ctx.probe("results-edited-in-place")
         if base["spec"]["kind"] in ("shot", "tagged") and base["spec"]["extra"] and measurable:
             ctx.probe("over-delivery")
         if getattr(R["obj"], "recycled", 0) > recycled_before:
